@@ -46,6 +46,7 @@ fn real_main() -> i32 {
             let p = |i: usize| args[i].parse::<u64>().unwrap_or(0);
             enginek::kworker(&args[2], p(3), p(4), p(5))
         }
+        Some("selftest") => enginex::selftest(args.get(2).and_then(|s| s.parse().ok()).unwrap_or(200)),
         Some("fungen") => {
             let seed: u64 = args.get(2).and_then(|s| s.parse().ok()).unwrap_or(1);
             let mut rng = prng::Rng::keyed(seed, 0, "fungen");
